@@ -159,4 +159,693 @@ theorem removeEntity_keeps_registry : Obl.removeEntity_keeps .registry := fun lo
     (keeps_registryInv (fun _ => removeEntity_fr ..) (fun _ => removeEntity_cc ..) (fun _ => removeEntity_hk ..)
       (removeEntity_ri ..))
 
+/-! ## section B for G5: the raw registry writes -/
+
+namespace InvV6
+
+/-! ### slot maps: what survives an insertion / a removal / a rewrite -/
+
+section slotmap
+variable {α : Type}
+
+theorem key_eq_of_idx {sm : SlotMap α} {k k' : Key} {v v' : α} (h : sm.get k = some v)
+    (h' : sm.get k' = some v') (hi : k.idx = k'.idx) : k = k' := by
+  unfold SlotMap.get at h h'
+  rw [hi] at h
+  cases hs : sm.slots[k'.idx]? with
+  | none => rw [hs] at h; cases h
+  | some s =>
+    rw [hs] at h h'
+    dsimp only at h h'
+    by_cases e1 : s.gen = k.gen
+    · by_cases e2 : s.gen = k'.gen
+      · cases k; cases k'; simp_all
+      · rw [if_neg e2] at h'; cases h'
+    · rw [if_neg e1] at h; cases h
+
+theorem get_insert_mono {sm sm' : SlotMap α} (wf : sm.WF) {f : Key → α} {k : Key}
+    (hins : sm.insertWith f = some (k, sm')) {k0 : Key} {v : α} (h : sm.get k0 = some v) : sm'.get k0 = some v := by
+  rw [SlotMap.get_insertWith wf hins k0, if_neg, h]
+  rintro rfl
+  have := SlotMap.insertWith_not_contains wf hins
+  simp [SlotMap.contains, h] at this
+
+theorem getByIndex_insert_mono {sm sm' : SlotMap α} (wf : sm.WF) {f : Key → α} {k : Key}
+    (hins : sm.insertWith f = some (k, sm')) {i : Nat} {k0 : Key} {v : α} (h : sm.getByIndex i = some (k0, v)) :
+    sm'.getByIndex i = some (k0, v) := by
+  obtain ⟨h1, h2⟩ := SlotMap.getByIndex_get h
+  rw [← h2]
+  exact SlotMap.get_getByIndex (wf.insertWith hins) (get_insert_mono wf hins h1)
+
+theorem getByIndex_insert_isSome {sm sm' : SlotMap α} (wf : sm.WF) {f : Key → α} {k : Key}
+    (hins : sm.insertWith f = some (k, sm')) {i : Nat} (h : (sm.getByIndex i).isSome = true) :
+    (sm'.getByIndex i).isSome = true := by
+  cases hg : sm.getByIndex i with
+  | none => rw [hg] at h; cases h
+  | some p => obtain ⟨k0, v⟩ := p; rw [getByIndex_insert_mono wf hins hg]; rfl
+
+/-- a removal only touches the slot of the removed key -/
+theorem getByIndex_remove_ne {sm sm' : SlotMap α} (wf : sm.WF) {k : Key} {v : α}
+    (h : sm.remove k = some (v, sm')) {i : Nat} (hi : i ≠ k.idx) : sm'.getByIndex i = sm.getByIndex i := by
+  obtain ⟨s, -, -, -, -, -, hcase⟩ := wf.remove_cases h
+  rcases hcase with ⟨-, rfl⟩ | ⟨-, rfl⟩ <;>
+  · unfold SlotMap.getByIndex
+    simp only [List.getElem?_set_ne (Ne.symm hi)]
+
+theorem get_remove_ne {sm sm' : SlotMap α} (wf : sm.WF) {k : Key} {v : α}
+    (h : sm.remove k = some (v, sm')) {k0 : Key} {v0 : α} (h0 : sm.get k0 = some v0) (hne : k0 ≠ k) :
+    sm'.get k0 = some v0 := by
+  rw [SlotMap.get_remove wf h k0, if_neg hne, h0]
+
+theorem get_of_get_remove {sm sm' : SlotMap α} (wf : sm.WF) {k : Key} {v : α}
+    (h : sm.remove k = some (v, sm')) {k0 : Key} {v0 : α} (h0 : sm'.get k0 = some v0) :
+    k0 ≠ k ∧ sm.get k0 = some v0 := by
+  rw [SlotMap.get_remove wf h k0] at h0
+  split at h0
+  · cases h0
+  · exact ⟨‹_›, h0⟩
+
+/-- the entry at an index after rewriting a live entry -/
+theorem getByIndex_set {sm : SlotMap α} (wf : sm.WF) {k : Key} {v0 : α} (hg : sm.get k = some v0) (v : α)
+    {i : Nat} {k0 : Key} {v1 : α} (h : sm.getByIndex i = some (k0, v1)) :
+    (sm.set k v).getByIndex i = some (k0, if k0 = k then v else v1) := by
+  obtain ⟨h1, h2⟩ := SlotMap.getByIndex_get h
+  rw [← h2]
+  refine SlotMap.get_getByIndex (wf.set hg v) ?_
+  rw [SlotMap.get_set hg v k0]
+  split
+  · rfl
+  · exact h1
+
+theorem getByIndex_set_isSome {sm : SlotMap α} (wf : sm.WF) {k : Key} {v0 : α} (hg : sm.get k = some v0) (v : α)
+    {i : Nat} (h : (sm.getByIndex i).isSome = true) : ((sm.set k v).getByIndex i).isSome = true := by
+  cases hi : sm.getByIndex i with
+  | none => rw [hi] at h; cases h
+  | some p => obtain ⟨k0, v1⟩ := p; rw [getByIndex_set wf hg v hi]; rfl
+
+end slotmap
+
+/-! ### `HandlerRefs` only needs what it refers to to stay -/
+
+theorem handlerRefs_mono {C C' : SlotMap CompInfo} {G G' T T' : SlotMap EvInfo} {h : HInfo}
+    (hr : HandlerRefs C G T h)
+    (hC : ∀ c ∈ h.referenced, (C.getByIndex c).isSome = true → (C'.getByIndex c).isSome = true)
+    (hG : h.recv.targeted = false → ∀ info, G.get h.recvKey = some info → G'.get h.recvKey = some info)
+    (hT : h.recv.targeted = true → ∀ info, T.get h.recvKey = some info → T'.get h.recvKey = some info)
+    (hGi : ∀ i ∈ h.sentG, ∀ p, G.getByIndex i = some p → G'.getByIndex i = some p)
+    (hTi : ∀ i ∈ h.sentT, ∀ p, T.getByIndex i = some p → T'.getByIndex i = some p) :
+    HandlerRefs C' G' T' h := by
+  obtain ⟨r1, r2, r3, r4, r5, r6, r7⟩ := hr
+  have some_of : ∀ {S S' : SlotMap EvInfo} {i : Nat}, (∀ p, S.getByIndex i = some p → S'.getByIndex i = some p) →
+      (S.getByIndex i).isSome = true → (S'.getByIndex i).isSome = true := by
+    intro S S' i hm hs
+    cases hg : S.getByIndex i with
+    | none => rw [hg] at hs; cases hs
+    | some p => rw [hm p hg]; rfl
+  refine ⟨fun c hc => hC c hc (r1 c hc), fun ht => ?_, fun ht => ?_, fun i hi => some_of (hGi i hi) (r4 i hi),
+    fun i hi => some_of (hTi i hi) (r5 i hi), fun ev i hm ht => ?_, fun ev i hm ht => ?_⟩
+  · obtain ⟨info, h1, h2⟩ := r2 ht
+    exact ⟨info, hG ht info h1, h2⟩
+  · obtain ⟨info, h1, h2⟩ := r3 ht
+    exact ⟨info, hT ht info h1, h2⟩
+  · obtain ⟨h1, k, info, h2, h3⟩ := r6 ev i hm ht
+    exact ⟨h1, k, info, hGi i h1 _ h2, h3⟩
+  · obtain ⟨h1, k, info, h2, h3⟩ := r7 ev i hm ht
+    exact ⟨h1, k, info, hTi i h1 _ h2, h3⟩
+
+end InvV6
+
+open InvV6
+
+/-! ### `regGev`, `regComp` -/
+
+theorem regGev_keeps_registry : Obl.regGev_keeps .registry := by
+  intro w ty k gevs' hw hins
+  have h := hw.registry
+  have wfg := hw.winv.gevsWF
+  show RegistryInv' w.comps gevs' w.tevs w.handlers w.removedIds
+  refine ⟨h.reg.insert_gevs hins, h.compEvents, h.tevComp, fun k' ei hk' => ?_, fun k' h' hk' => ?_⟩
+  · rw [SlotMap.get_insertWith wfg hins k'] at hk'
+    split at hk'
+    · cases hk'; rfl
+    · exact h.gevKind k' ei hk'
+  · exact handlerRefs_mono (h.handlerRefs k' h' hk') (fun _ _ hs => hs) (fun _ info hi => get_insert_mono wfg hins hi)
+      (fun _ _ hi => hi) (fun i _ p hp => getByIndex_insert_mono wfg hins hp) (fun _ _ _ hp => hp)
+
+theorem regComp_keeps_registry : Obl.regComp_keeps .registry := by
+  intro w ty k comps' hw hins
+  have h := hw.registry
+  have wfc := hw.winv.compsWF
+  show RegistryInv' comps' w.gevs w.tevs w.handlers w.removedIds
+  refine ⟨h.reg.insert_comps hins, fun k' ci hk' => ?_, fun k' ei hk' c => ?_, h.gevKind, fun k' h' hk' => ?_⟩
+  · rw [SlotMap.get_insertWith wfc hins k'] at hk'
+    split at hk'
+    · cases hk'
+      exact ⟨fun e he => (by cases he), fun e he => (by cases he)⟩
+    · exact h.compEvents k' ci hk'
+  · obtain ⟨h1, h2⟩ := h.tevComp k' ei hk' c
+    refine ⟨fun hk => ?_, fun hk => ?_⟩
+    · obtain ⟨ck, ci, hci, hm⟩ := h1 hk
+      exact ⟨ck, ci, getByIndex_insert_mono wfc hins hci, hm⟩
+    · obtain ⟨ck, ci, hci, hm⟩ := h2 hk
+      exact ⟨ck, ci, getByIndex_insert_mono wfc hins hci, hm⟩
+  · exact handlerRefs_mono (h.handlerRefs k' h' hk') (fun _ _ hs => getByIndex_insert_isSome wfc hins hs) (fun _ _ hi => hi)
+      (fun _ _ hi => hi) (fun _ _ _ hp => hp) (fun _ _ _ hp => hp)
+
+/-! ### `regTev` -/
+
+namespace InvV6
+
+/-- a targeted event whose kind refers to no component is registered -/
+theorem registryInv_insert_tev_plain {C : SlotMap CompInfo} {G T T' : SlotMap EvInfo} {H : SlotMap HInfo}
+    {rem : List (Char × Key)} (h : RegistryInv' C G T H rem) {f : Key → EvInfo} {k : Key}
+    (hins : T.insertWith f = some (k, T')) (hkind : ∀ c, (f k).kind ≠ .insert c ∧ (f k).kind ≠ .remove c) :
+    RegistryInv' C G T' H rem := by
+  have wft := h.reg.wft
+  refine ⟨h.reg.insert_tevs hins, fun k' ci hk' => ?_, fun k' ei hk' c => ?_, h.gevKind, fun k' h' hk' => ?_⟩
+  · obtain ⟨h1, h2⟩ := h.compEvents k' ci hk'
+    refine ⟨fun e he => ?_, fun e he => ?_⟩
+    · obtain ⟨ei, hei, hk⟩ := h1 e he
+      exact ⟨ei, get_insert_mono wft hins hei, hk⟩
+    · obtain ⟨ei, hei, hk⟩ := h2 e he
+      exact ⟨ei, get_insert_mono wft hins hei, hk⟩
+  · rw [SlotMap.get_insertWith wft hins k'] at hk'
+    split at hk'
+    · cases hk'
+      exact ⟨fun hk => absurd hk (hkind c).1, fun hk => absurd hk (hkind c).2⟩
+    · exact h.tevComp k' ei hk' c
+  · exact handlerRefs_mono (h.handlerRefs k' h' hk') (fun _ _ hs => hs) (fun _ _ hi => hi)
+      (fun _ info hi => get_insert_mono wft hins hi) (fun _ _ _ hp => hp)
+      (fun i _ p hp => getByIndex_insert_mono wft hins hp)
+
+/-- an `Insert<C>` / `Remove<C>` event is registered and noted on its (live) component -/
+theorem registryInv_insert_tev_comp {C : SlotMap CompInfo} {G T T' : SlotMap EvInfo} {H : SlotMap HInfo}
+    {rem : List (Char × Key)} (h : RegistryInv' C G T H rem) {f : Key → EvInfo} {k : Key}
+    (hins : T.insertWith f = some (k, T')) {c : Nat} {ck : Key} {ci ci' : CompInfo}
+    (hci : C.getByIndex c = some (ck, ci)) (hk : (f k).kind = .insert c ∨ (f k).kind = .remove c)
+    (hI : ∀ e, e ∈ ci'.insEvents ↔ e ∈ ci.insEvents ∨ ((f k).kind = .insert c ∧ e = k))
+    (hR : ∀ e, e ∈ ci'.remEvents ↔ e ∈ ci.remEvents ∨ ((f k).kind = .remove c ∧ e = k)) :
+    RegistryInv' (C.set ck ci') G T' H rem := by
+  have wft := h.reg.wft
+  have wfc := h.reg.wfc
+  obtain ⟨hcg, hcidx⟩ := SlotMap.getByIndex_get hci
+  have hTk : T'.get k = some (f k) := SlotMap.get_insertWith_self hins
+  refine ⟨(h.reg.insert_tevs hins).set_comps_byIndex hci ci', fun k' cj hk' => ?_, fun k' ei hk' c' => ?_,
+    h.gevKind, fun k' h' hk' => ?_⟩
+  · rw [SlotMap.get_set hcg ci' k'] at hk'
+    split at hk'
+    · next hkk =>
+      cases hk'
+      subst hkk
+      obtain ⟨h1, h2⟩ := h.compEvents k' ci hcg
+      refine ⟨fun e he => ?_, fun e he => ?_⟩
+      · rcases (hI e).1 he with he | ⟨hkind, rfl⟩
+        · obtain ⟨ei, hei, hk⟩ := h1 e he
+          exact ⟨ei, get_insert_mono wft hins hei, hk⟩
+        · exact ⟨_, hTk, by rw [hkind, hcidx]⟩
+      · rcases (hR e).1 he with he | ⟨hkind, rfl⟩
+        · obtain ⟨ei, hei, hk⟩ := h2 e he
+          exact ⟨ei, get_insert_mono wft hins hei, hk⟩
+        · exact ⟨_, hTk, by rw [hkind, hcidx]⟩
+    · obtain ⟨h1, h2⟩ := h.compEvents k' cj hk'
+      refine ⟨fun e he => ?_, fun e he => ?_⟩
+      · obtain ⟨ei, hei, hk⟩ := h1 e he
+        exact ⟨ei, get_insert_mono wft hins hei, hk⟩
+      · obtain ⟨ei, hei, hk⟩ := h2 e he
+        exact ⟨ei, get_insert_mono wft hins hei, hk⟩
+  · rw [SlotMap.get_insertWith wft hins k'] at hk'
+    split at hk'
+    · next hkk =>
+      cases hk'
+      subst hkk
+      have hnew : (C.set ck ci').getByIndex c = some (ck, ci') := by
+        have := getByIndex_set wfc hcg ci' hci
+        rwa [if_pos rfl] at this
+      refine ⟨fun hkind => ?_, fun hkind => ?_⟩
+      · have hcc : c' = c := by
+          rcases hk with hk | hk <;> rw [hk] at hkind <;> cases hkind
+          rfl
+        subst hcc
+        exact ⟨ck, ci', hnew, (hI k').2 (.inr ⟨hkind, rfl⟩)⟩
+      · have hcc : c' = c := by
+          rcases hk with hk | hk <;> rw [hk] at hkind <;> cases hkind
+          rfl
+        subst hcc
+        exact ⟨ck, ci', hnew, (hR k').2 (.inr ⟨hkind, rfl⟩)⟩
+    · obtain ⟨h1, h2⟩ := h.tevComp k' ei hk' c'
+      refine ⟨fun hkind => ?_, fun hkind => ?_⟩
+      · obtain ⟨ck', cj, hcj, hm⟩ := h1 hkind
+        refine ⟨ck', _, getByIndex_set wfc hcg ci' hcj, ?_⟩
+        split
+        · next hkk =>
+          subst hkk
+          have : cj = ci := by
+            have := (SlotMap.getByIndex_get hcj).1
+            rw [hcg] at this; cases this; rfl
+          subst this
+          exact (hI k').2 (.inl hm)
+        · exact hm
+      · obtain ⟨ck', cj, hcj, hm⟩ := h2 hkind
+        refine ⟨ck', _, getByIndex_set wfc hcg ci' hcj, ?_⟩
+        split
+        · next hkk =>
+          subst hkk
+          have : cj = ci := by
+            have := (SlotMap.getByIndex_get hcj).1
+            rw [hcg] at this; cases this; rfl
+          subst this
+          exact (hR k').2 (.inl hm)
+        · exact hm
+  · exact handlerRefs_mono (h.handlerRefs k' h' hk') (fun _ _ hs => getByIndex_set_isSome wfc hcg ci' hs)
+      (fun _ _ hi => hi) (fun _ info hi => get_insert_mono wft hins hi) (fun _ _ _ hp => hp)
+      (fun i _ p hp => getByIndex_insert_mono wft hins hp)
+
+end InvV6
+
+theorem regTev_keeps_registry : Obl.regTev_keeps .registry := by
+  intro w ty kind nd k tevs' hw _ hlive hins
+  have h := hw.registry
+  have hkind : (Step.tevEntry ty kind nd k).kind = kind := rfl
+  show RegistryInv (Step.noteEvent { w with tevs := tevs' } kind k)
+  unfold Step.noteEvent
+  cases kind with
+  | insert c =>
+    dsimp only
+    cases hci : w.comps.getByIndex c with
+    | none => have := hlive c (.inl rfl); rw [hci] at this; cases this
+    | some p =>
+      obtain ⟨ck, ci⟩ := p
+      dsimp only
+      refine registryInv_insert_tev_comp h hins hci (.inl hkind) (fun e => ?_) (fun e => ?_)
+      · simp [hkind]
+      · simp [hkind]
+  | remove c =>
+    dsimp only
+    cases hci : w.comps.getByIndex c with
+    | none => have := hlive c (.inr rfl); rw [hci] at this; cases this
+    | some p =>
+      obtain ⟨ck, ci⟩ := p
+      dsimp only
+      refine registryInv_insert_tev_comp h hins hci (.inr hkind) (fun e => ?_) (fun e => ?_)
+      · simp [hkind]
+      · simp [hkind]
+  | normal => exact registryInv_insert_tev_plain h hins fun c => by rw [hkind]; exact ⟨nofun, nofun⟩
+  | spawn => exact registryInv_insert_tev_plain h hins fun c => by rw [hkind]; exact ⟨nofun, nofun⟩
+  | despawn => exact registryInv_insert_tev_plain h hins fun c => by rw [hkind]; exact ⟨nofun, nofun⟩
+
+/-! ### `setGen` (frame), `removeHandlerPure` -/
+
+theorem setGen_keeps_registry : Obl.setGen_keeps .registry := by
+  intro w id gen loc s a hw _ _ _ _ _ _
+  exact hw.registry
+
+theorem removeHandlerPure_keeps_registry : Obl.removeHandlerPure_keeps .registry := by
+  intro w k h hw hk
+  have hr := hw.registry
+  have wfh := hw.winv.handlersWF
+  obtain ⟨-, -, -, -, e5, e6, e7, -⟩ := removeHandlerPure_frame w k h
+  show RegistryInv' (removeHandlerPure w k h).comps (removeHandlerPure w k h).gevs (removeHandlerPure w k h).tevs
+    (removeHandlerPure w k h).handlers (removeHandlerPure w k h).removedIds
+  rw [e5, e6, e7, removeHandlerPure_handlers, removeHandlerPure_removedIds]
+  cases hrm : w.handlers.remove k with
+  | none =>
+    have := SlotMap.remove_eq_none_iff.1 hrm
+    rw [hk] at this; cases this
+  | some p =>
+    obtain ⟨v, hs⟩ := p
+    dsimp only
+    refine ⟨hr.reg.remove_handlers hrm, hr.compEvents, hr.tevComp, hr.gevKind, fun k' h' hk' => ?_⟩
+    exact hr.handlerRefs k' h' (get_of_get_remove wfh hrm hk').2
+
+/-! ### `registerAll` -/
+
+namespace InvV6
+
+section
+local macro_rules | `(tactic| keeps_leaf) => `(tactic| exact getArch_hk _ _)
+local macro_rules | `(tactic| keeps_leaf) => `(tactic| exact ubErr_hk _)
+local macro_rules | `(tactic| keeps_leaf) => `(tactic| exact registerHandler_hk _ _)
+local macro_rules | `(tactic| keeps_leaf) => `(tactic| exact setArch_hk _)
+theorem registerAll_hk {reg : Key → Option HInfo} (k : Key) : Keeps (HK reg) (registerAll k) := by
+  unfold registerAll; keeps
+end
+
+theorem registerAll_fr {fr : Frame} (k : Key) : Keeps (FR fr) (registerAll k) := by unfold registerAll; keeps
+theorem registerAll_cc {c : SlotMap CompInfo} (k : Key) : Keeps (CC c) (registerAll k) := by
+  unfold registerAll; keeps
+theorem registerAll_ri {D : List (Char × Key)} (k : Key) : Keeps (RegInv D) (registerAll k) := by
+  unfold registerAll; keeps
+
+theorem registerAll_registryInv (k : Key) : Keeps RegistryInv (registerAll k) :=
+  keeps_registryInv (fun _ => registerAll_fr k) (fun _ => registerAll_cc k) (fun _ => registerAll_hk k)
+    (registerAll_ri k)
+
+end InvV6
+
+theorem registerAll_keeps_registry : Obl.registerAll_keeps .registry := by
+  intro w k h handlers' hw hpre
+  have hr := hw.registry
+  obtain ⟨mk, hins, hmk⟩ := hpre.ins
+  have wfh := hw.winv.handlersWF
+  refine Hoare.pre (Hoare.of_keeps_panicOnly (registerAll_registryInv k)) ?_
+  rintro _ rfl
+  show RegistryInv' w.comps w.gevs w.tevs handlers' w.removedIds
+  refine ⟨hr.reg.insert_handlers hins, hr.compEvents, hr.tevComp, hr.gevKind, fun k' h' hk' => ?_⟩
+  rw [SlotMap.get_insertWith wfh hins k'] at hk'
+  split at hk'
+  · cases hk'
+    rw [hmk]
+    exact hpre.refs
+  · exact hr.handlerRefs k' h' hk'
+
+/-! ### `removeEventFinish` -/
+
+namespace InvV6
+
+/-- the bookkeeping on the component of a removed `Insert<C>` / `Remove<C>` event -/
+def unnote (w : World) (kind : EvKind) (k : Key) : World :=
+  match kind with
+  | .insert c =>
+    match w.comps.getByIndex c with
+    | some (ck, ci) => { w with comps := w.comps.set ck { ci with insEvents := ci.insEvents.filter (· != k) } }
+    | none => w
+  | .remove c =>
+    match w.comps.getByIndex c with
+    | some (ck, ci) => { w with comps := w.comps.set ck { ci with remEvents := ci.remEvents.filter (· != k) } }
+    | none => w
+  | _ => w
+
+/-- `removeEventFinish` in closed form, targeted events -/
+theorem removeEventFinish_run_t {ty : EvTy} (k : Key) (w : World) (ht : ty.targeted = true) :
+    (removeEventFinish ty k).run.run w =
+      match w.tevs.remove k with
+      | none => (.error (.panic "internal:unwrap on None (remove_targeted_event)"), w)
+      | some (info, tevs') =>
+        (.ok true, unnote { w with tevs := tevs', removedIds := ('t', k) :: w.removedIds } info.kind k) := by
+  unfold removeEventFinish
+  simp only [ht, if_true, run_bind, run_get]
+  cases hr : w.tevs.remove k with
+  | none => rfl
+  | some p =>
+    obtain ⟨info, tevs'⟩ := p
+    simp only [run_bind, run_set]
+    cases info.kind with
+    | insert c =>
+      simp only [run_bind, run_get, unnote]
+      cases w.comps.getByIndex c with
+      | none => simp only [run_pure]
+      | some r => obtain ⟨ck, ci⟩ := r; simp only [run_bind, run_set, run_pure]
+    | remove c =>
+      simp only [run_bind, run_get, unnote]
+      cases w.comps.getByIndex c with
+      | none => simp only [run_pure]
+      | some r => obtain ⟨ck, ci⟩ := r; simp only [run_bind, run_set, run_pure]
+    | _ => simp only [run_pure, unnote]
+
+/-- `removeEventFinish` in closed form, global events -/
+theorem removeEventFinish_run_g {ty : EvTy} (k : Key) (w : World) (ht : ty.targeted = false) :
+    (removeEventFinish ty k).run.run w =
+      match w.gevs.remove k with
+      | none => (.error (.panic "internal:unwrap on None (remove_global_event)"), w)
+      | some (_, gevs') => (.ok true, { w with gevs := gevs', removedIds := ('g', k) :: w.removedIds }) := by
+  unfold removeEventFinish
+  simp only [ht, Bool.false_eq_true, if_false, run_bind, run_get]
+  cases hr : w.gevs.remove k with
+  | none => rfl
+  | some p =>
+    obtain ⟨info, gevs'⟩ := p
+    simp only [run_bind, run_set, run_pure]
+
+theorem registryInv_remove_gev {C : SlotMap CompInfo} {G G' T : SlotMap EvInfo} {H : SlotMap HInfo}
+    {rem : List (Char × Key)} (h : RegistryInv' C G T H rem) {k : Key} {info : EvInfo}
+    (hrm : G.remove k = some (info, G'))
+    (hun : ∀ hk h', H.get hk = some h' → ¬ (h'.recv.targeted = false ∧ h'.recvKey = k) ∧ k.idx ∉ h'.sentG) :
+    RegistryInv' C G' T H (('g', k) :: rem) := by
+  have wfg := h.reg.wfg
+  refine ⟨h.reg.remove_gevs hrm, h.compEvents, h.tevComp, fun k' ei hk' => ?_, fun k' h' hk' => ?_⟩
+  · exact h.gevKind k' ei (get_of_get_remove wfg hrm hk').2
+  · obtain ⟨u1, u2⟩ := hun k' h' hk'
+    refine handlerRefs_mono (h.handlerRefs k' h' hk') (fun _ _ hs => hs) (fun ht info' hi => ?_)
+      (fun _ _ hi => hi) (fun i hi p hp => ?_) (fun _ _ _ hp => hp)
+    · exact get_remove_ne wfg hrm hi fun e => u1 ⟨ht, e⟩
+    · rw [getByIndex_remove_ne wfg hrm (fun e => u2 (e ▸ hi))]; exact hp
+
+theorem registryInv_remove_tev_plain {C : SlotMap CompInfo} {G T T' : SlotMap EvInfo} {H : SlotMap HInfo}
+    {rem : List (Char × Key)} (h : RegistryInv' C G T H rem) {k : Key} {info : EvInfo}
+    (hrm : T.remove k = some (info, T'))
+    (hun : ∀ hk h', H.get hk = some h' → ¬ (h'.recv.targeted = true ∧ h'.recvKey = k) ∧ k.idx ∉ h'.sentT)
+    (hkind : ∀ c, info.kind ≠ .insert c ∧ info.kind ≠ .remove c) :
+    RegistryInv' C G T' H (('t', k) :: rem) := by
+  have wft := h.reg.wft
+  have hTk : T.get k = some info := SlotMap.get_of_remove hrm
+  refine ⟨h.reg.remove_tevs hrm, fun k' cj hk' => ?_, fun k' ei hk' c => ?_, h.gevKind, fun k' h' hk' => ?_⟩
+  · obtain ⟨h1, h2⟩ := h.compEvents k' cj hk'
+    refine ⟨fun e he => ?_, fun e he => ?_⟩
+    · obtain ⟨ei, hei, hk⟩ := h1 e he
+      refine ⟨ei, get_remove_ne wft hrm hei ?_, hk⟩
+      rintro rfl
+      rw [hTk] at hei; cases hei
+      exact (hkind _).1 hk
+    · obtain ⟨ei, hei, hk⟩ := h2 e he
+      refine ⟨ei, get_remove_ne wft hrm hei ?_, hk⟩
+      rintro rfl
+      rw [hTk] at hei; cases hei
+      exact (hkind _).2 hk
+  · exact h.tevComp k' ei (get_of_get_remove wft hrm hk').2 c
+  · obtain ⟨u1, u2⟩ := hun k' h' hk'
+    refine handlerRefs_mono (h.handlerRefs k' h' hk') (fun _ _ hs => hs) (fun _ _ hi => hi)
+      (fun ht info' hi => ?_) (fun _ _ _ hp => hp) (fun i hi p hp => ?_)
+    · exact get_remove_ne wft hrm hi fun e => u1 ⟨ht, e⟩
+    · rw [getByIndex_remove_ne wft hrm (fun e => u2 (e ▸ hi))]; exact hp
+
+theorem registryInv_remove_tev_comp {C : SlotMap CompInfo} {G T T' : SlotMap EvInfo} {H : SlotMap HInfo}
+    {rem : List (Char × Key)} (h : RegistryInv' C G T H rem) {k : Key} {info : EvInfo}
+    (hrm : T.remove k = some (info, T'))
+    (hun : ∀ hk h', H.get hk = some h' → ¬ (h'.recv.targeted = true ∧ h'.recvKey = k) ∧ k.idx ∉ h'.sentT)
+    {c : Nat} {ck : Key} {ci ci' : CompInfo} (hci : C.getByIndex c = some (ck, ci))
+    (hk : info.kind = .insert c ∨ info.kind = .remove c)
+    (hI1 : ∀ e ∈ ci'.insEvents, e ∈ ci.insEvents ∧ (info.kind = .insert c → e ≠ k))
+    (hI2 : ∀ e ∈ ci.insEvents, e ≠ k → e ∈ ci'.insEvents)
+    (hR1 : ∀ e ∈ ci'.remEvents, e ∈ ci.remEvents ∧ (info.kind = .remove c → e ≠ k))
+    (hR2 : ∀ e ∈ ci.remEvents, e ≠ k → e ∈ ci'.remEvents) :
+    RegistryInv' (C.set ck ci') G T' H (('t', k) :: rem) := by
+  have wft := h.reg.wft
+  have wfc := h.reg.wfc
+  obtain ⟨hcg, hcidx⟩ := SlotMap.getByIndex_get hci
+  have hTk : T.get k = some info := SlotMap.get_of_remove hrm
+  refine ⟨(h.reg.remove_tevs hrm).set_comps_byIndex hci ci', fun k' cj hk' => ?_, fun k' ei hk' c' => ?_,
+    h.gevKind, fun k' h' hk' => ?_⟩
+  · rw [SlotMap.get_set hcg ci' k'] at hk'
+    split at hk'
+    · next hkk =>
+      cases hk'
+      subst hkk
+      obtain ⟨h1, h2⟩ := h.compEvents k' ci hcg
+      refine ⟨fun e he => ?_, fun e he => ?_⟩
+      · obtain ⟨he1, he2⟩ := hI1 e he
+        obtain ⟨ei, hei, hkd⟩ := h1 e he1
+        refine ⟨ei, get_remove_ne wft hrm hei ?_, hkd⟩
+        rintro rfl
+        rw [hTk] at hei; cases hei
+        exact he2 (by rw [hkd, hcidx]) rfl
+      · obtain ⟨he1, he2⟩ := hR1 e he
+        obtain ⟨ei, hei, hkd⟩ := h2 e he1
+        refine ⟨ei, get_remove_ne wft hrm hei ?_, hkd⟩
+        rintro rfl
+        rw [hTk] at hei; cases hei
+        exact he2 (by rw [hkd, hcidx]) rfl
+    · next hkk =>
+      obtain ⟨h1, h2⟩ := h.compEvents k' cj hk'
+      refine ⟨fun e he => ?_, fun e he => ?_⟩
+      · obtain ⟨ei, hei, hkd⟩ := h1 e he
+        refine ⟨ei, get_remove_ne wft hrm hei ?_, hkd⟩
+        rintro rfl
+        rw [hTk] at hei; cases hei
+        rcases hk with hk | hk <;> rw [hk] at hkd <;> cases hkd
+        exact hkk (key_eq_of_idx hk' hcg hcidx.symm)
+      · obtain ⟨ei, hei, hkd⟩ := h2 e he
+        refine ⟨ei, get_remove_ne wft hrm hei ?_, hkd⟩
+        rintro rfl
+        rw [hTk] at hei; cases hei
+        rcases hk with hk | hk <;> rw [hk] at hkd <;> cases hkd
+        exact hkk (key_eq_of_idx hk' hcg hcidx.symm)
+  · obtain ⟨hne, hk0⟩ := get_of_get_remove wft hrm hk'
+    obtain ⟨h1, h2⟩ := h.tevComp k' ei hk0 c'
+    refine ⟨fun hkind => ?_, fun hkind => ?_⟩
+    · obtain ⟨ck', cj, hcj, hm⟩ := h1 hkind
+      refine ⟨ck', _, getByIndex_set wfc hcg ci' hcj, ?_⟩
+      split
+      · next hkk =>
+        subst hkk
+        have : cj = ci := by
+          have := (SlotMap.getByIndex_get hcj).1
+          rw [hcg] at this; cases this; rfl
+        subst this
+        exact hI2 k' hm hne
+      · exact hm
+    · obtain ⟨ck', cj, hcj, hm⟩ := h2 hkind
+      refine ⟨ck', _, getByIndex_set wfc hcg ci' hcj, ?_⟩
+      split
+      · next hkk =>
+        subst hkk
+        have : cj = ci := by
+          have := (SlotMap.getByIndex_get hcj).1
+          rw [hcg] at this; cases this; rfl
+        subst this
+        exact hR2 k' hm hne
+      · exact hm
+  · obtain ⟨u1, u2⟩ := hun k' h' hk'
+    refine handlerRefs_mono (h.handlerRefs k' h' hk') (fun _ _ hs => getByIndex_set_isSome wfc hcg ci' hs)
+      (fun _ _ hi => hi) (fun ht info' hi => ?_) (fun _ _ _ hp => hp) (fun i hi p hp => ?_)
+    · exact get_remove_ne wft hrm hi fun e => u1 ⟨ht, e⟩
+    · rw [getByIndex_remove_ne wft hrm (fun e => u2 (e ▸ hi))]; exact hp
+
+end InvV6
+
+theorem removeEventFinish_keeps_registry : Obl.removeEventFinish_keeps .registry := by
+  intro ty k
+  refine ⟨fun w hw => ?_⟩
+  obtain ⟨hw, hun⟩ := hw
+  have h := hw.registry
+  cases ht : ty.targeted with
+  | false =>
+    have hun' : ∀ hk h', w.handlers.get hk = some h' →
+        ¬ (h'.recv.targeted = false ∧ h'.recvKey = k) ∧ k.idx ∉ h'.sentG := fun hk h' hg => by
+      have := hun hk h' hg
+      rw [ht] at this
+      exact this
+    rw [removeEventFinish_run_g k w ht]
+    cases hrm : w.gevs.remove k with
+    | none => exact fun _ => h
+    | some p =>
+      obtain ⟨info, gevs'⟩ := p
+      exact registryInv_remove_gev h hrm hun'
+  | true =>
+    have hun' : ∀ hk h', w.handlers.get hk = some h' →
+        ¬ (h'.recv.targeted = true ∧ h'.recvKey = k) ∧ k.idx ∉ h'.sentT := fun hk h' hg => by
+      have := hun hk h' hg
+      rw [ht] at this
+      exact this
+    rw [removeEventFinish_run_t k w ht]
+    cases hrm : w.tevs.remove k with
+    | none => exact fun _ => h
+    | some p =>
+      obtain ⟨info, tevs'⟩ := p
+      have hTk : w.tevs.get k = some info := SlotMap.get_of_remove hrm
+      show RegistryInv (unnote { w with tevs := tevs', removedIds := ('t', k) :: w.removedIds } info.kind k)
+      unfold unnote
+      cases hkind : info.kind with
+      | insert c =>
+        dsimp only
+        obtain ⟨ck, ci, hci, -⟩ := (h.tevComp k info hTk c).1 hkind
+        rw [show ({ w with tevs := tevs', removedIds := ('t', k) :: w.removedIds } : World).comps.getByIndex c =
+          some (ck, ci) from hci]
+        dsimp only
+        refine registryInv_remove_tev_comp h hrm hun' hci (.inl hkind) ?_ ?_ ?_ ?_
+        · intro e he
+          have : e ∈ ci.insEvents ∧ ¬ e = k := by simpa using he
+          exact ⟨this.1, fun _ => this.2⟩
+        · intro e he hne; simpa using ⟨he, hne⟩
+        · intro e he; exact ⟨he, fun hk => by rw [hkind] at hk; cases hk⟩
+        · intro e he _; exact he
+      | remove c =>
+        dsimp only
+        obtain ⟨ck, ci, hci, -⟩ := (h.tevComp k info hTk c).2 hkind
+        rw [show ({ w with tevs := tevs', removedIds := ('t', k) :: w.removedIds } : World).comps.getByIndex c =
+          some (ck, ci) from hci]
+        dsimp only
+        refine registryInv_remove_tev_comp h hrm hun' hci (.inr hkind) ?_ ?_ ?_ ?_
+        · intro e he; exact ⟨he, fun hk => by rw [hkind] at hk; cases hk⟩
+        · intro e he _; exact he
+        · intro e he
+          have : e ∈ ci.remEvents ∧ ¬ e = k := by simpa using he
+          exact ⟨this.1, fun _ => this.2⟩
+        · intro e he hne; simpa using ⟨he, hne⟩
+      | normal => exact registryInv_remove_tev_plain h hrm hun' fun c => by rw [hkind]; exact ⟨nofun, nofun⟩
+      | spawn => exact registryInv_remove_tev_plain h hrm hun' fun c => by rw [hkind]; exact ⟨nofun, nofun⟩
+      | despawn => exact registryInv_remove_tev_plain h hrm hun' fun c => by rw [hkind]; exact ⟨nofun, nofun⟩
+
+/-! ### `dropComp` -/
+
+namespace InvV6
+
+theorem archsRemoveComponent_fr {fr : Frame} (info : CompInfo) : Keeps (FR fr) (archsRemoveComponent info) := by
+  unfold archsRemoveComponent
+  keeps
+  all_goals (refine Keeps.modify fun w h => ?_; split <;> exact h)
+
+section
+local macro_rules | `(tactic| keeps_leaf) => `(tactic| exact getArch_hk _ _)
+local macro_rules | `(tactic| keeps_leaf) => `(tactic| exact ubErr_hk _)
+local macro_rules | `(tactic| keeps_leaf) => `(tactic| exact handlerRemoveArch_hk _ _)
+local macro_rules | `(tactic| keeps_leaf) => `(tactic| exact setArch_hk _)
+local macro_rules | `(tactic| keeps_leaf) => `(tactic| exact dropCell_hk _ _)
+theorem archsRemoveComponent_hk {reg : Key → Option HInfo} (info : CompInfo) :
+    Keeps (HK reg) (archsRemoveComponent info) := by
+  unfold archsRemoveComponent
+  keeps
+  all_goals (refine Keeps.modify fun w h => ?_; split <;> exact h)
+end
+
+theorem dropCompTail_registryInv (info : CompInfo) : Keeps RegistryInv (dropCompTail info) := by
+  unfold dropCompTail
+  exact Keeps.bind
+    (keeps_registryInv (fun _ => archsRemoveComponent_fr info) (fun _ => archsRemoveComponent_cc info)
+      (fun _ => archsRemoveComponent_hk info) (archsRemoveComponent_ri info))
+    fun _ => keeps_registryInv (fun _ => resRefresh_fr) (fun _ => resRefresh_cc) (fun _ => resRefresh_hk) resRefresh_ri
+
+/-- the registry write of `removeComponent`: nothing refers to the component any more -/
+theorem registryInv_remove_comp {C C' : SlotMap CompInfo} {G T : SlotMap EvInfo} {H : SlotMap HInfo}
+    {rem : List (Char × Key)} (h : RegistryInv' C G T H rem) {k : Key} {info : CompInfo}
+    (hrm : C.remove k = some (info, C')) (hun : ∀ hk h', H.get hk = some h' → k.idx ∉ h'.referenced)
+    (hI : info.insEvents = []) (hR : info.remEvents = []) :
+    RegistryInv' C' G T H (('c', k) :: rem) := by
+  have wfc := h.reg.wfc
+  have hCk : C.get k = some info := SlotMap.get_of_remove hrm
+  have keep : ∀ {c : Nat} {ck : Key} {ci : CompInfo}, C.getByIndex c = some (ck, ci) → ck ≠ k →
+      C'.getByIndex c = some (ck, ci) := by
+    intro c ck ci hci hne
+    obtain ⟨h1, h2⟩ := SlotMap.getByIndex_get hci
+    rw [getByIndex_remove_ne wfc hrm]
+    · exact hci
+    · intro e
+      exact hne (key_eq_of_idx h1 hCk (h2.trans e))
+  refine ⟨h.reg.remove_comps hrm, fun k' ci hk' => ?_, fun k' ei hk' c => ?_, h.gevKind, fun k' h' hk' => ?_⟩
+  · exact h.compEvents k' ci (get_of_get_remove wfc hrm hk').2
+  · obtain ⟨h1, h2⟩ := h.tevComp k' ei hk' c
+    refine ⟨fun hkind => ?_, fun hkind => ?_⟩
+    · obtain ⟨ck, ci, hci, hm⟩ := h1 hkind
+      refine ⟨ck, ci, keep hci ?_, hm⟩
+      rintro rfl
+      have := (SlotMap.getByIndex_get hci).1
+      rw [hCk] at this; cases this
+      rw [hI] at hm; cases hm
+    · obtain ⟨ck, ci, hci, hm⟩ := h2 hkind
+      refine ⟨ck, ci, keep hci ?_, hm⟩
+      rintro rfl
+      have := (SlotMap.getByIndex_get hci).1
+      rw [hCk] at this; cases this
+      rw [hR] at hm; cases hm
+  · refine handlerRefs_mono (h.handlerRefs k' h' hk') (fun c hc hs => ?_) (fun _ _ hi => hi) (fun _ _ hi => hi)
+      (fun _ _ _ hp => hp) (fun _ _ _ hp => hp)
+    rw [getByIndex_remove_ne wfc hrm (fun e => hun k' h' hk' (e ▸ hc))]
+    exact hs
+
+end InvV6
+
+theorem dropComp_keeps_registry : Obl.dropComp_keeps .registry := by
+  intro w k info comps' hw hun hrm
+  refine Hoare.pre (Hoare.of_keeps_panicOnly (dropCompTail_registryInv info)) ?_
+  rintro _ rfl
+  exact registryInv_remove_comp hw.registry hrm hun.handlers hun.insEvents hun.remEvents
+
+/-- **section B for G5 is complete** -/
+theorem registry_sectionB :
+    Obl.regGev_keeps .registry ∧ Obl.regComp_keeps .registry ∧ Obl.regTev_keeps .registry ∧
+    Obl.registerAll_keeps .registry ∧ Obl.removeHandlerPure_keeps .registry ∧
+    Obl.removeEventFinish_keeps .registry ∧ Obl.dropComp_keeps .registry ∧ Obl.setGen_keeps .registry :=
+  ⟨regGev_keeps_registry, regComp_keeps_registry, regTev_keeps_registry, registerAll_keeps_registry,
+    removeHandlerPure_keeps_registry, removeEventFinish_keeps_registry, dropComp_keeps_registry,
+    setGen_keeps_registry⟩
+
 end Evenio
